@@ -31,11 +31,13 @@ def _run(args):
 
 def native_replay(job, inputs, scratch):
     """returns (status, text): status in confirmed / not-reproduced / unavailable"""
-    if not job.replay or not inputs: return 'unavailable', ''
+    # driver name conventions: *_scenario.cpp = a fixed native scenario for the job's obligations (runs without counterexample inputs);
+    # *_debug*.cpp = built with assertions enabled (no -DNDEBUG), for obligations that only exist in the assertion-enabled configuration
+    if not job.replay or (not inputs and '_scenario' not in job.replay): return 'unavailable', ''
     src = os.path.join(vf.VERIF, job.replay)
     exe = os.path.join(scratch, 'replay_' + re.sub(r'\W', '_', job.replay))
     if not os.path.exists(exe):
-        cmd = ['g++', '-std=c++20', '-O1', '-fno-access-control', '-Wno-everything', '-w', '-DNDEBUG', '-DUNODB_DETAIL_WITH_STATS', '-DUNODB_SPINLOCK_LOOP_VALUE=1', '-mavx2',
+        cmd = ['g++', '-std=c++20', '-O1', '-fno-access-control', '-Wno-everything', '-w'] + ([] if '_debug' in job.replay else ['-DNDEBUG']) + ['-DUNODB_DETAIL_WITH_STATS', '-DUNODB_SPINLOCK_LOOP_VALUE=1', '-mavx2',
                '-I' + vf.REPO, '-I' + os.path.join(vf.VERIF, 'spec'), '-I' + os.path.join(vf.VERIF, 'replay'), src, os.path.join(vf.REPO, 'qsbr.cpp'), os.path.join(vf.REPO, 'qsbr_ptr.cpp'),
                os.path.join(vf.REPO, 'art_internal.cpp'), '-lpthread', '-o', exe]
         rc, so, se, dt = vf.sh(cmd, timeout=600)
